@@ -96,6 +96,7 @@ func loadWorld(repo, stubsDir string) (*World, error) {
 			k := typeKey(pt.Elem())
 			w.typeInvs[k] = append(w.typeInvs[k], &typeInvInfo{v: ti.Var, cl: ti.Clause, pkg: pkg, gt: gt})
 		}
+		w.scans = append(w.scans, sf.Scans...)
 		for n, ls := range sf.LocSets {
 			w.locSets[n] = ls
 		}
